@@ -270,7 +270,7 @@ def createCppPortItf (d : DznPortItf) (structName : Str) (sfns : Ids) : R CppPor
 /-- C++ type text of one formal: the `$value$` of the unique *extern* found on the scope chain of
     the interface (wrong kind: a lookup error after the repair of D-6; `AttributeError` before) -/
 def formalCType (fc : FC) (itf : InterfaceD) (f : Formal) : R Str := do
-  let d ← getSingle (findFqn fc f.typeName itf.fqn) (some (fun d => match d with | .extern _ => true | _ => false))
+  let d ← getSingle (findFqn fc f.typeName itf.fqn) (some isExtern)
   match d with
   | .extern e => pure e.value
   | _ => .error (.lib .FindError)
